@@ -55,6 +55,8 @@ def make_resolver(ti, rules, ser, log):
             return ask(('name', str(name))), None
 
         def res_value(self, ns, value):
+            if type(value) not in T.BASE:
+                T.register_class(type(value))
             return ask(('value', type(value).__name__, repr(value)))
 
         def res_arg(self, ns, types_ns, f_name, name, type_anno, f_is_local):
@@ -347,6 +349,8 @@ def stored_names(node):
     def walk(n, top):
         if isinstance(n, (ast.FunctionDef, ast.Lambda)) and not top:
             return
+        if isinstance(n, (ast.ListComp, ast.SetComp, ast.DictComp, ast.GeneratorExp)):
+            return          # comprehension targets live in the comprehension's own scope
         if isinstance(n, ast.Name) and isinstance(n.ctx, (ast.Store, ast.Del)):
             out.append(n.id)
         for c in ast.iter_child_nodes(n):
